@@ -1,8 +1,12 @@
 #!/usr/bin/env python3
-"""tools/mut.py <file-rel-to-/repo> <old> <new> -- <PID>...  [--suite]
-Apply one textual edit to /repo, run the named checks (quick), restore."""
+"""tools/mut.py <file-rel-to-repo> <old> <new> -- <PID>...  [--suite]
+Apply one textual edit in a SCRATCH WORKTREE of /repo HEAD, run the suite (optional) and the named checks
+(quick) against that worktree (VERIF_REPO / VERIF_OUT), then remove the worktree.  /repo is never touched."""
+import os
+import shutil
 import subprocess
 import sys
+import tempfile
 
 args = sys.argv[1:]
 suite = "--suite" in args
@@ -10,34 +14,29 @@ args = [a for a in args if a != "--suite"]
 sep = args.index("--")
 f, old, new = args[:sep]
 pids = args[sep + 1:]
-p = "/repo/" + f
-s = open(p).read()
-if s.count(old) != 1:
-    print(f"pattern occurs {s.count(old)} times", file=sys.stderr)
-    sys.exit(3)
-open(p, "w").write(s.replace(old, new))
-import os, shutil, tempfile
-keep = tempfile.mkdtemp(prefix="verif-mut-")
-for sub in ("evidence", "replays"):
-    if os.path.isdir("/verif/" + sub):
-        shutil.copytree("/verif/" + sub, keep + "/" + sub)
+wt = tempfile.mkdtemp(prefix="verif-mut-wt-")
+os.rmdir(wt)
+out = tempfile.mkdtemp(prefix="verif-mut-out-")
+subprocess.run(["git", "-C", "/repo", "worktree", "add", "-q", "--detach", wt, "HEAD"], check=True)
 try:
+    p = os.path.join(wt, f)
+    s = open(p).read()
+    if s.count(old) != 1:
+        print(f"pattern occurs {s.count(old)} times", file=sys.stderr)
+        sys.exit(3)
+    open(p, "w").write(s.replace(old, new))
     if suite:
-        r = subprocess.run("cd /repo && timeout 600 /venv/bin/python -m pytest -q -x -p no:cacheprovider --timeout=300 2>&1 | tail -2",
+        r = subprocess.run(f"cd {wt} && timeout 600 /venv/bin/python -m pytest -q -x -p no:cacheprovider --timeout=300 2>&1 | tail -2",
                            shell=True, capture_output=True, text=True)
         print("SUITE:", r.stdout.strip().splitlines()[-1] if r.stdout.strip() else r.stderr[-200:])
+    env = dict(os.environ, VERIF_REPO=wt, VERIF_OUT=out)
     for pid in pids:
-        r = subprocess.run(["/verif/check", pid], capture_output=True, text=True, cwd="/verif")
+        r = subprocess.run(["/verif/check", pid], capture_output=True, text=True, cwd="/verif", env=env)
         viol = [l for l in r.stdout.splitlines() if l.startswith("VIOLATION")]
         last = r.stdout.strip().splitlines()[-1] if r.stdout.strip() else ""
         print(f"{pid}: exit={r.returncode} violations={len(viol)} | {last}")
         if r.returncode == 2:
             print(r.stderr[-1500:])
 finally:
-    subprocess.run(["git", "-C", "/repo", "checkout", "--", f], check=True)
-    # evidence / replay files written while the mutant was applied describe the mutant, not the tree
-    for sub in ("evidence", "replays"):
-        shutil.rmtree("/verif/" + sub, ignore_errors=True)
-        if os.path.isdir(keep + "/" + sub):
-            shutil.copytree(keep + "/" + sub, "/verif/" + sub)
-    shutil.rmtree(keep, ignore_errors=True)
+    subprocess.run(["git", "-C", "/repo", "worktree", "remove", "--force", wt])
+    shutil.rmtree(out, ignore_errors=True)
